@@ -60,9 +60,16 @@ def gen(rng, tier):
       nmaps += 1
     elif r < 0.95:
       ops.append({'op': 'clear', 'm': m})
-    else:
+    elif rng.random() < 0.5:
       ops.append({'op': 'insert', 'm': m, 'name': rng.choice(
           ['', 'a..b', 'a b', '1a', 'a.', '.a'])})
+    else:
+      # a rejected name whose trailing components are fine (and may run along
+      # the names that are stored)
+      bad = rng.choice(['a b', '1a', '', 'a-b', 'b!'])
+      tail = [rng.choice(COMP + ['x']) for _ in range(rng.randint(1, 3))]
+      head = [rng.choice(COMP)] if rng.random() < 0.3 else []
+      ops.append({'op': 'insert', 'm': m, 'name': '.'.join(head + [bad] + tail)})
   # part B
   pool = ['pa.ma.f', 'pb.ma.f', 'pa.mb.f', 'ma.f', 'f', 'pa.ma.g', 'g',
           'q.r.s.h', 's.h', 'x.pa.ma.f']
@@ -73,8 +80,13 @@ def gen(rng, tier):
          'import_as': rng.choice([None, None, 'alias8']),
          'targets': rng.sample(['fn', 'cls', 'meth'], rng.randint(1, 3)),
          'scoped': rng.random() < 0.3}
+  # part D: constants are addressed by the same rule
+  cpool = ['K', 'm.K', 'p.m.K', 'q.K', 'L', 'p.L', 'x.y.Z']
+  consts = [[n, rng.choice(['obj', 'none', 'zero', 'false', 'empty', 'str'])]
+            for n in rng.sample(cpool, rng.randint(1, 5))]
   return {'ops': ops, 'regs': regs, 'hooks': hooks,
-          'bind_at': rng.randint(0, len(regs) - 1), 'dyn': dyn}
+          'bind_at': rng.randint(0, len(regs) - 1), 'dyn': dyn,
+          'consts': consts}
 
 
 # ---------------------------------------------------------------------------
@@ -526,12 +538,91 @@ def part_c(case, v, log, stats):
       'config_str round trip raised %r' % e)
 
 
+# ---------------------------------------------------------------------------
+# Part D: constants
+# ---------------------------------------------------------------------------
+
+def part_d(case, v, log, stats):
+  gin = world.gin
+  world.reset()
+  received = {}
+
+  def hook(name, named, args, kwargs, self_):
+    received[name] = dict(named)
+  cobj, _ = probes.compile_probe(
+      {'name': 'cuser', 'kind': 'fn',
+       'params': [{'n': 'r', 'k': 'def', 'd': 'dflt'}]}, hook)
+  cuser = probes.register_probe({'name': 'cuser', 'module': 'zzz'}, cobj)
+  stored = {}
+  mk = {'obj': lambda n: probes.Tok(0, 'const:' + n), 'none': lambda n: None,
+        'zero': lambda n: 0, 'false': lambda n: False, 'empty': lambda n: (),
+        'str': lambda n: 'text:' + n}
+  for name, kind in case['consts']:
+    val = mk[kind](name)
+    try:
+      gin.constant(name, val)
+    except ValueError:
+      # gin may refuse a name that abbreviates / is abbreviated by an existing
+      # one; the property is silent on that
+      log.add('constant_refused', name)
+      continue
+    except Exception as e:  # pylint: disable=broad-except
+      v('C08.constant_define', [type(e).__name__],
+        'gin.constant(%r) raised %r' % (name, e))
+      continue
+    stored[name] = val
+    log.add('constant', name, kind)
+    for q in suffixes(sorted(stored)) + ['nope.K', 'zz']:
+      want = m_matches(stored, q)
+      stats['const_lookups'] += 1
+      got = {}
+      try:
+        got['query'] = ('ok', gin.query_parameter(q))
+      except Exception as e:  # pylint: disable=broad-except
+        got['query'] = ('exc', type(e).__name__)
+      try:
+        gin.parse_config('zzz.cuser.r = %%%s' % q)
+        received.clear()
+        cuser()
+        got['macro'] = ('ok', received.get('cuser', {}).get('r', 'NOT-CALLED'))
+      except Exception as e:  # pylint: disable=broad-except
+        got['macro'] = ('exc', type(e).__name__)
+      for api, (st, res) in sorted(got.items()):
+        if len(want) == 1:
+          target = stored[want[0]]
+          if st != 'ok' or res is not target and res != target:
+            v('C08.constant_spelling', [api],
+              'constants %r: %s of %%%s gives %s %r, want the value of %r (%r)'
+              % (sorted(stored), api, q, st, res, want[0], target))
+          elif st == 'ok' and res is not target and \
+              case_kind(case, want[0]) == 'obj':
+            v('C08.constant_spelling', [api, 'identity'],
+              '%s of %%%s gives an equal but different object' % (api, q))
+        elif len(want) > 1:
+          if st == 'ok':
+            v('C08.ambiguous_rejected', ['constant', api],
+              'constants %r: %s of ambiguous %%%s (matches %r) gave %r' %
+              (sorted(stored), api, q, want, res))
+        elif api == 'query' and st == 'ok':
+          v('C08.unknown_rejected', ['constant', api],
+            'constants %r: query of unknown %%%s gave %r' %
+            (sorted(stored), q, res))
+      log.add('const_lookup', q, sorted((a, s) for a, (s, _) in got.items()))
+
+
+def case_kind(case, name):
+  for n, k in case['consts']:
+    if n == name:
+      return k
+  return None
+
+
 def run(case):
   world.reset()
   log = probes.Log()
   viol = []
   stats = {'pop_with_nested': 0, 'copy_with_nested': 0,
-           'resolution_changed': 0, 'hook_pairs': 0, 'dyn_targets': 0}
+           'resolution_changed': 0, 'hook_pairs': 0, 'dyn_targets': 0, 'const_lookups': 0}
 
   def v(oracle, disc, msg):
     if len(viol) < 16:
@@ -543,6 +634,8 @@ def run(case):
     part_b(case, v, log, stats)
   if case.get('dyn') and not case.get('skip_c'):
     part_c(case, v, log, stats)
+  if case.get('consts') and not case.get('skip_d'):
+    part_d(case, v, log, stats)
   seen = set()
   uniq = []
   for x in viol:
@@ -563,7 +656,8 @@ def run(case):
                  'spelling_resolution_changed_by_later_registration':
                      stats['resolution_changed'],
                  'hook_pairs': stats['hook_pairs'],
-                 'dynamically_registered_targets': stats['dyn_targets']},
+                 'dynamically_registered_targets': stats['dyn_targets'],
+                 'constant_lookups': stats['const_lookups']},
       'sample_obs': [probes.stable(e) for e in log.events[:8]],
   }
 
@@ -577,6 +671,15 @@ def shrinks(case):
     c = copy.deepcopy(case)
     c['skip_b'] = True
     yield c
+  if case.get('consts') and not case.get('skip_d'):
+    c = copy.deepcopy(case)
+    c['skip_d'] = True
+    yield c
+    if len(case['consts']) > 1:
+      for i in range(len(case['consts'])):
+        c = copy.deepcopy(case)
+        del c['consts'][i]
+        yield c
   if case.get('dyn') and not case.get('skip_c'):
     c = copy.deepcopy(case)
     c['skip_c'] = True
